@@ -199,8 +199,14 @@ func TestC05Perm(t *testing.T) {
 				acts = append(acts, CAct{Op: "unary", B: int64(10 + c)})
 			}
 		}
-		for _, e := range base {
+		for j, e := range base {
 			acts = append(acts, CAct{Op: "deliver", Env: e})
+			if i%4 == 1 && j == 1 {
+				acts = append(acts, CAct{Op: "tick", B: 60}) // time passes while the responses pile up ...
+			}
+		}
+		if i%2 == 0 {
+			acts = append(acts, CAct{Op: "tick", B: tickMillis[(i/2)%len(tickMillis)]}) // ... and before the caller starts draining
 		}
 		for k := 0; k < 8; k++ {
 			for c, st := range kinds {
